@@ -468,6 +468,20 @@ def graph_shapes() -> List[Shape]:
         {"f1": [call("f2"), keep("/z/top", "f3")], "f2": [], "f3": [call("f4")], "f4": [call("f5")], "f5": [load("/z/src")]},
         reads={"f2": ["v1"], "f5": ["v2"]}, vtype={"v1": "int", "v2": "int"},
         dpath={"f2": "/z/src", "f5": "/z/leaf"}, tags=["kept-plain-kept-load"]))
+    # a shared keep reached before AND after a keep with a run-time argument (the second time through a
+    # call that has a run-time argument itself): no edge may point back from the run-time keep
+    S.append(Shape(
+        "g_back", "f1",
+        {"f1": [call("f2"), call("f6", "runtime"), call("f3", "runtime")],
+         "f2": [call("f5")], "f3": [call("f5")], "f4": [], "f5": [], "f6": [keep("/gb/b", "f4", "pass")]},
+        reads={"f5": ["v1"]}, vtype={"v1": "int"},
+        dpath={"f5": "/gb/a"}, tags=["shared-keep-around-runtime-keep"]))
+    # a plain call that is given a run-time argument but whose keep below has no argument at all
+    S.append(Shape(
+        "g_plainarg", "f1",
+        {"f1": [call("f2"), call("f3", "runtime")], "f2": [call("f5")], "f3": [keep("/gp/y", "f4")], "f4": [], "f5": []},
+        reads={"f5": ["v1"], "f4": ["v2"]}, vtype={"v1": "int", "v2": "int"},
+        dpath={"f5": "/gp/a"}, tags=["argless-keep-below-dependent-call"]))
     # one function kept at two paths of one evaluation (same body / different bodies)
     S.append(Shape(
         "g_dup", "f1",
